@@ -543,21 +543,21 @@ theorem unionIds_sorted (bs : List (Block V)) : (unionIds bs).Pairwise (· < ·)
 /-! ### `mergeBlocks` -/
 
 theorem mergeBlocks_fields (agg : FieldType → V → V → V) (bs : List (Block V)) :
-    (mergeBlocks agg bs).fields = sortFields (prepare bs).fields := rfl
+    (mergeBlocksI agg bs).fields = sortFields (prepare bs).fields := rfl
 
 theorem mergeBlocks_start (agg : FieldType → V → V → V) (bs : List (Block V)) :
-    (mergeBlocks agg bs).start = (prepare bs).srcStart := rfl
+    (mergeBlocksI agg bs).start = (prepare bs).srcStart := rfl
 
 theorem mergeBlocks_stop (agg : FieldType → V → V → V) (bs : List (Block V)) :
-    (mergeBlocks agg bs).stop = (prepare bs).srcEnd := rfl
+    (mergeBlocksI agg bs).stop = (prepare bs).srcEnd := rfl
 
 theorem mergeBlocks_seriesIds (agg : FieldType → V → V → V) (bs : List (Block V)) :
-    (mergeBlocks agg bs).seriesIds = unionIds bs := by
-  simp [mergeBlocks, mergeBlocksWith, Block.seriesIds, keys, List.map_map, Function.comp_def]
+    (mergeBlocksI agg bs).seriesIds = unionIds bs := by
+  simp [mergeBlocksI, mergeBlocksIdeal, mergeBlocksBy, Block.seriesIds, keys, List.map_map, Function.comp_def]
 
 /-- the merged block's type of a field id is the type in the first input block that has the id -/
 theorem mergeBlocks_fieldType (agg : FieldType → V → V → V) (bs : List (Block V)) (f : Nat) :
-    (mergeBlocks agg bs).fieldType? f = bs.findSome? (fun b => b.fieldType? f) := by
+    (mergeBlocksI agg bs).fieldType? f = bs.findSome? (fun b => b.fieldType? f) := by
   unfold Block.fieldType?
   rw [mergeBlocks_fields, lookup_sortFields _ (prepare_fields_nodup bs), lookup_prepare_fields]
 
@@ -598,26 +598,26 @@ theorem get_range {b : Block V} {s f t : Nat} {v : V} (h : b.get s f t = some v)
 /-- **the value of every cell of the merged block**: the left fold, in input order, of the field's
 aggregate over the values the input blocks hold for that cell (`combList … none` = `foldAgg`). -/
 theorem mergeBlocks_get (agg : FieldType → V → V → V) (bs : List (Block V)) (s f t : Nat) :
-    (mergeBlocks agg bs).get s f t =
-      match (mergeBlocks agg bs).fieldType? f with
+    (mergeBlocksI agg bs).get s f t =
+      match (mergeBlocksI agg bs).fieldType? f with
       | none => none
       | some ty => foldAgg (agg ty) (bs.filterMap (fun b => b.get s f t)) := by
   have hft := mergeBlocks_fieldType agg bs f
-  cases hty : (mergeBlocks agg bs).fieldType? f with
+  cases hty : (mergeBlocksI agg bs).fieldType? f with
   | none => exact get_eq_none_of_fieldType_none _ s f t hty
   | some ty =>
     simp only []
     by_cases hs : s ∈ unionIds bs
     · -- the series is in the merged block: its entry lists every target field
-      have hser : lookup (mergeBlocks agg bs).series s =
+      have hser : lookup (mergeBlocksI agg bs).series s =
           some ((sortFields (prepare bs).fields).map (fun fm =>
             (fm.1, mergeField agg compactCfg (prepare bs).srcStart (prepare bs).srcEnd fm.2 s fm.1 bs))) := by
         have := lookup_map_keys (unionIds bs) (fun s => (sortFields (prepare bs).fields).map (fun fm =>
             (fm.1, mergeField agg compactCfg (prepare bs).srcStart (prepare bs).srcEnd fm.2 s fm.1 bs))) s
         rw [if_pos hs] at this
         exact this
-      have hfld : lookup (mergeBlocks agg bs).fields f = some ty := hty
-      have hfd : (mergeBlocks agg bs).fieldData s f =
+      have hfld : lookup (mergeBlocksI agg bs).fields f = some ty := hty
+      have hfd : (mergeBlocksI agg bs).fieldData s f =
           some (mergeField agg compactCfg (prepare bs).srcStart (prepare bs).srcEnd ty s f bs) := by
         unfold Block.fieldData
         rw [hser, hfld]
@@ -626,7 +626,7 @@ theorem mergeBlocks_get (agg : FieldType → V → V → V) (bs : List (Block V)
           (fun k ty => mergeField agg compactCfg (prepare bs).srcStart (prepare bs).srcEnd ty s k bs) f]
         rw [mergeBlocks_fields] at hfld
         rw [hfld]; rfl
-      have hget : (mergeBlocks agg bs).get s f t =
+      have hget : (mergeBlocksI agg bs).get s f t =
           if (prepare bs).srcStart ≤ t ∧ t ≤ (prepare bs).srcEnd then
             lookup (mergeField agg compactCfg (prepare bs).srcStart (prepare bs).srcEnd ty s f bs) t
           else none := by
@@ -669,7 +669,7 @@ theorem mergeBlocks_get (agg : FieldType → V → V → V) (bs : List (Block V)
 
 /-- a field id unknown to the merged block is unknown to every input block -/
 theorem contrib_nil_of_fieldType_none (agg : FieldType → V → V → V) (bs : List (Block V)) (s f t : Nat)
-    (h : (mergeBlocks agg bs).fieldType? f = none) :
+    (h : (mergeBlocksI agg bs).fieldType? f = none) :
     bs.filterMap (fun b => b.get s f t) = [] := by
   rw [mergeBlocks_fieldType, List.findSome?_eq_none_iff] at h
   rw [List.filterMap_eq_nil_iff]
